@@ -567,7 +567,22 @@ func wrappedCFFFile(t *rapid.T) []byte {
 	return nil
 }
 
+// seedIsAliased is set by seedFor when it returns a seed of the recorded
+// aliasing class; such a seed is used as it is (a mutated count field would
+// turn 100 references into 65535 and the case into minutes and gigabytes).
+var seedIsAliased bool
+
 func seedFor(t *rapid.T, name string) []byte {
+	seedIsAliased = false
+	switch name {
+	case "gtab.Read/GSUB", "gtab.Read/GPOS", "gdef.Read", "name.Decode":
+		if stats.IsListed("C02", "alloc-aliased:"+map[bool]string{true: "strings:", false: "coverage:"}[name == "name.Decode"]+name) &&
+			rapid.IntRange(0, 399).Draw(t, "aliasedSeed") == 211 {
+			stats.Label("layout", "seed:aliased-offset-targets")
+			seedIsAliased = true
+			return aliasedSeed(t, name)
+		}
+	}
 	switch name {
 	case "sfnt.Read/ReaderAt", "sfnt.Read/Reader", "header.Read":
 		if rapid.IntRange(0, 9).Draw(t, "goregular") == 0 {
@@ -879,7 +894,11 @@ func runGroup(t *testing.T, sub string, names ...string) {
 					seed = mutateCFFSection(t, seed)
 				}
 			}
-			b = mutateBytes(t, seed)
+			if seedIsAliased {
+				b = seed
+			} else {
+				b = mutateBytes(t, seed)
+			}
 		}
 		o := tg.run(b)
 		if err := tg.verdict(b, o); err != nil {
@@ -1006,6 +1025,9 @@ func TestC02MakeCorpus(t *testing.T) {
 		names := fuzzGroups[fz]
 		sel := rapid.IntRange(0, len(names)-1).Draw(t, "sel")
 		b := seedFor(t, names[sel])
+		if seedIsAliased {
+			t.Skip("aliased seed")
+		}
 		if len(b) > 6000 || count[fz] >= 25 {
 			return
 		}
@@ -1156,7 +1178,7 @@ func TestC02Sweep(t *testing.T) {
 		if name == "gpos-degenerate" {
 			name = "gtab.Read/GPOS"
 		}
-		if len(seed) > 600 || len(seed) < 4 {
+		if len(seed) > 600 || len(seed) < 4 || seedIsAliased {
 			t.Skip("seed too large for a sweep")
 		}
 		runs := sweepTable(t.Fatalf, name, seed, func(nf int) []int {
